@@ -84,8 +84,77 @@ def signature_accepts(fn: FuncInfo, fixed: int, variadic: bool) -> str | None:
     return None
 
 
+def check_state_hook(ctx: Check, tree: Tree, hooks: dict) -> None:
+    """Without a custom __getnewargs__ the non-SymPy attributes travel as instance state:
+    the state hook must hand out exactly those attributes - never SymPy's own slots, which
+    contain the cached hash (`_mhash`, process dependent under hash randomisation)."""
+    impl = tree.func("ampform.sympy._decorator::_implement_new_method")
+    state = {k: v for k, v in hooks.items() if k in {"__getstate__", "__reduce__", "__reduce_ex__", "__getnewargs_ex__"}}
+    if not state:
+        raise AnalysisError("the decorator installs neither __getnewargs__ nor a state hook: pickling of non-SymPy attributes is outside the rule's grammar")
+    for attr, (value, cond, resolved) in state.items():
+        fn = tree.funcs.get(resolved or "")
+        if fn is None:
+            raise AnalysisError(f"state hook {attr} = {unparse(value)} cannot be resolved")
+        txt = unparse(fn.node)
+        uses_slots = "__slots__" in txt
+        walks_mro = "__mro__" in txt or ".mro()" in txt
+        uses_fields = "_get_fields(" in txt or "dataclasses.fields(" in txt or "get_sympy_fields(" in txt
+        key = f"{impl.qual}::cls.{attr}"
+        if uses_slots and walks_mro:
+            ctx.violation("R-STATE", key + "::hands-out-hash-cache", tree.loc(fn.node),
+                          f"cls.{attr} = {unparse(value)}: {fn.qual} collects the values of __slots__ along the MRO, which include sympy.Basic's cached hash `_mhash`",
+                          "Basic.__setstate__ restores the hash of the dumping process: after a cross-process load (different PYTHONHASHSEED) equal expressions hash differently, dict/set lookups and xreplace on the loaded model silently miss")
+        elif uses_fields or (uses_slots and not walks_mro):
+            ctx.ok("R-STATE", tree.loc(fn.node), f"cls.{attr} = {unparse(value)}: state is built from the class's own non-SymPy fields")
+        else:
+            raise AnalysisError(f"state hook {fn.qual}: cannot tell which attributes are handed to pickle")
+
+
+def check_attribute_identity(ctx: Check, tree: Tree) -> None:
+    """Values given to non-SymPy fields take part in equality/hash through their identity
+    and are pickled with the expression.  A class or function is pickled by reference; an
+    instance of a class without __eq__/__hash__ comes back as a different, unequal object."""
+    classes = expression_classes(tree)
+    names = {f.name for c in classes.values() for f in c.non_sympy_fields if f.name != "name"}
+    if not names:
+        raise AnalysisError("no non-SymPy fields found")
+    n = 0
+    for q, fn in [*tree.funcs.items(), *[(m.name, None) for m in ()]]:
+        pass
+    calls = []
+    for mod in tree.modules.values():
+        if not mod.name.startswith("ampform"):
+            continue
+        for node in ast.walk(mod.tree):
+            if isinstance(node, ast.Call):
+                for k in node.keywords:
+                    if k.arg in names:
+                        calls.append((mod, node, k))
+    for mod, call, kw in calls:
+        n += 1
+        val = kw.value
+        where = tree.loc(call)
+        what = f"{unparse(call.func)}(..., {kw.arg}={unparse(val)[:50]})"
+        if isinstance(val, ast.Call):
+            target = tree.resolve(mod, val.func, tree.func_of(call))
+            if target in tree.classes:
+                cls = tree.classes[target]
+                has_eq = tree.lookup_method(cls, "__eq__") is not None and tree.lookup_method(cls, "__hash__") is not None
+                value_class = any(t in {"attrs.frozen", "attr.frozen"} or ("dataclass" in t and "frozen=True" in unparse(d)) for t, d in cls.decorators)
+                ctx.verdict(has_eq or value_class, "R-ATTRIDENTITY", f"{mod.name}::{what}", where,
+                            f"{what}: an instance of {cls.name} is used as a non-SymPy attribute" + ("" if has_eq or value_class else " but the class defines no __eq__/__hash__"),
+                            None if has_eq or value_class else "the instance is pickled by value: the loaded expression holds a new object, so loaded != original (equality and hash of the expression go through the attribute)")
+                continue
+        ctx.ok("R-ATTRIDENTITY", where, f"{what}: class / function / forwarded value (pickled by reference)")
+    ctx.stats["non_sympy_attribute_sites"] = n
+    if n < 5:
+        raise AnalysisError(f"only {n} call sites pass a non-SymPy attribute (10+ confirmed)")
+
+
 def run(ctx: Check, tree: Tree) -> None:
     ctx.decided += [
+        "values passed for non-SymPy fields inside the package are classes / functions / forwarded values, or instances of classes with value equality (R-ATTRIDENTITY); a state hook never hands out SymPy's cached hash (R-STATE)",
         "cls.__getnewargs__ installed by @unevaluated is shallow (R-SHALLOW) and returns every field in __new__'s positional order (R-COMPLETE)",
         "hand-written expression classes: the args created in __new__ are valid positional input to the same __new__, or pickle hooks are defined (R-NEWARGS)",
         "deprecated UnevaluatedExpression.__getnewargs_ex__ matches its __new__(*args, name=...)",
@@ -96,7 +165,14 @@ def run(ctx: Check, tree: Tree) -> None:
         "pickle protocol 2+: object.__reduce_ex__ calls cls.__new__(cls, *obj.__getnewargs__()) and restores __dict__/slots state",
         "sympy.Basic.__getnewargs__ returns self.args",
     ]
-    ctx.section(check_shallow_hooks, ctx, tree, ["__getnewargs__"], need_complete=True)
+    from ..exprmodel import installed_hooks
+
+    hooks = installed_hooks(tree)
+    if "__getnewargs__" in hooks:
+        ctx.section(check_shallow_hooks, ctx, tree, ["__getnewargs__"], need_complete=True)
+    else:
+        ctx.section(check_state_hook, ctx, tree, hooks)
+    ctx.section(check_attribute_identity, ctx, tree)
 
     # ---- hand-written classes
     hw = handwritten_expr_classes(tree)
